@@ -85,17 +85,20 @@ type SOrd struct {
 	A, B Sum
 }
 
-// SArith is A + B or A - B on integers.
+// SArith is integer arithmetic on small numbers: + - * & | ^ &^ << >> (results beyond 2^30 are not modelled,
+// so that overflow of the real type cannot be missed).
 type SArith struct {
 	Op   token.Token
 	A, B Sum
 }
 
-// SConv is an integer-to-integer conversion T(X); the fragment only admits it between types of the same
-// size class (see translator.conv), where it keeps the number.
+// SConv is an integer-to-integer conversion T(X) that keeps the number.
 type SConv struct {
 	X Sum
 	T types.Type
+	// Same: source and target have the same basic kind, so every value is kept; otherwise the value must lie in
+	// the range every integer type of the target's kind can hold
+	Same bool
 }
 
 func (SConst) sum()  {}
@@ -889,7 +892,7 @@ func (tr *translator) expr(x ast.Expr, e env) Sum {
 			if isIntType(tr.info.TypeOf(n.X)) && isIntType(tr.info.TypeOf(n.Y)) {
 				return SOrd{Op: n.Op, A: tr.expr(n.X, e), B: tr.expr(n.Y, e)}
 			}
-		case token.ADD, token.SUB:
+		case token.ADD, token.SUB, token.MUL, token.AND, token.OR, token.XOR, token.AND_NOT, token.SHL, token.SHR:
 			if isIntType(tr.info.TypeOf(n.X)) && isIntType(tr.info.TypeOf(n.Y)) {
 				return SArith{Op: n.Op, A: tr.expr(n.X, e), B: tr.expr(n.Y, e)}
 			}
@@ -915,10 +918,10 @@ func (tr *translator) expr(x ast.Expr, e env) Sum {
 		tr.fail(n.Pos(), "slice expression with bounds is outside the fragment")
 	case *ast.CallExpr:
 		if tv, ok := tr.info.Types[n.Fun]; ok && tv.IsType() {
-			if len(n.Args) == 1 && isIntType(tv.Type) && isIntType(tr.info.TypeOf(n.Args[0])) && tr.sameWidth(tv.Type, tr.info.TypeOf(n.Args[0])) {
-				return SConv{X: tr.expr(n.Args[0], e), T: tv.Type}
+			if len(n.Args) == 1 && isIntType(tv.Type) && isIntType(tr.info.TypeOf(n.Args[0])) {
+				return SConv{X: tr.expr(n.Args[0], e), T: tv.Type, Same: tr.sameWidth(tv.Type, tr.info.TypeOf(n.Args[0]))}
 			}
-			tr.fail(n.Pos(), "conversion (other than between integer types of one width) is outside the fragment")
+			tr.fail(n.Pos(), "conversion (other than between integer types) is outside the fragment")
 		}
 		// len(m) of a map
 		if id, ok := ast.Unparen(n.Fun).(*ast.Ident); ok && len(n.Args) == 1 {
@@ -992,6 +995,31 @@ func (tr *translator) sameWidth(a, b types.Type) bool {
 	}
 	ka, kb := kind(a), kind(b)
 	return ka != types.Invalid && ka == kb
+}
+
+// fitsKind: every integer type of t's basic kind (int counted as 32 bits) holds the number c.
+func fitsKind(c constant.Value, t types.Type) bool {
+	i, exact := constant.Int64Val(c)
+	if !exact {
+		return false
+	}
+	k := types.Int
+	if b, ok := t.Underlying().(*types.Basic); ok {
+		k = b.Kind()
+	}
+	switch k {
+	case types.Int8:
+		return -128 <= i && i <= 127
+	case types.Uint8:
+		return 0 <= i && i <= 255
+	case types.Int16:
+		return -32768 <= i && i <= 32767
+	case types.Uint16:
+		return 0 <= i && i <= 65535
+	case types.Uint, types.Uint32, types.Uint64, types.Uintptr:
+		return 0 <= i && i <= 1<<32-1
+	}
+	return -(1<<31) <= i && i <= 1<<31-1
 }
 
 // numOf: the integer an abstract value stands for: a constant, or a concrete out-of-range representative.
@@ -1200,19 +1228,34 @@ func (f *Facts) eval(s Sum, b map[*types.Var]Value) Value {
 		if !aok || !bok {
 			return Value{Kind: VInvalid, Why: fmt.Sprintf("arithmetic on %s and %s", av, bv)}
 		}
-		r := constant.BinaryOp(ac, x.Op, bc)
+		var r constant.Value
+		if x.Op == token.SHL || x.Op == token.SHR {
+			n, exact := constant.Uint64Val(bc)
+			if !exact || n > 30 {
+				return Value{Kind: VInvalid, Why: "shift count outside the modelled range"}
+			}
+			r = constant.Shift(ac, x.Op, uint(n))
+		} else {
+			r = constant.BinaryOp(ac, x.Op, bc)
+		}
 		if i, exact := constant.Int64Val(r); !exact || i > 1<<30 || i < -(1<<30) {
 			return Value{Kind: VInvalid, Why: "arithmetic result outside the modelled range"}
 		}
 		return f.intValue(r, av.Type)
 	case SConv:
 		v := f.eval(x.X, b)
+		if c, ok := numOf(v); ok && !x.Same && !fitsKind(c, x.T) {
+			return Value{Kind: VInvalid, Why: fmt.Sprintf("conversion of %s to %s may change the value", v, x.T)}
+		}
 		switch v.Kind {
 		case VConst:
 			if c, ok := numOf(v); ok {
 				return f.intValue(c, x.T)
 			}
 		case VOther:
+			if v.C == nil && !x.Same {
+				return Value{Kind: VInvalid, Why: fmt.Sprintf("conversion of an arbitrary value to %s may change it", x.T)}
+			}
 			return Value{Kind: VOther, C: v.C, Type: x.T}
 		case VInvalid, VAmbiguous:
 			return v
